@@ -4,6 +4,10 @@ import glob, json, os
 
 VERIF = os.path.dirname(os.path.dirname(os.path.abspath(__file__)))
 rows = []
+notes = {}
+np = os.path.join(VERIF, "seeded", "NOTES.json")
+if os.path.exists(np):
+    notes = json.load(open(np))
 for m in sorted(glob.glob(os.path.join(VERIF, "seeded", "*", "meta.json"))):
     d = json.load(open(m))
     name = os.path.basename(os.path.dirname(m))
@@ -18,7 +22,7 @@ for m in sorted(glob.glob(os.path.join(VERIF, "seeded", "*", "meta.json"))):
     needs = (d.get("needs_to_manifest") or "").replace("|", "/")
     if len(needs) > 220:
         needs = needs[:217] + "…"
-    note = d.get("note", "")
+    note = notes.get(name, d.get("note", ""))
     rows.append("| %s | %s | %s | %s | %s |" % (name, needs, caught, ", ".join(classes[:3]) or ("" if caught != "—" else "not caught"), note))
 print("| Seeded change | Needs, to manifest | Caught by | Violation class | Note |")
 print("|---|---|---|---|---|")
